@@ -43,6 +43,7 @@ import (
 	"verif/cluster"
 	"verif/mc"
 
+	"github.com/chrislusf/seaweedfs/weed/operation"
 	"github.com/chrislusf/seaweedfs/weed/storage/needle"
 )
 
@@ -296,6 +297,125 @@ func (e *env) doUpload(key uint64, u upload, variant int) vhutil.Resp {
 	return vhutil.Do("POST", url, hdr, b, ct)
 }
 
+// doClientUpload uploads through operation.UploadData (its 3-attempt retry loop included).
+func (e *env) doClientUpload(key uint64, u upload, variant int) error {
+	sent, gzipped, _ := body(u.Body, variant)
+	pairs := map[string]string{}
+	if u.Pairs {
+		pairs["Seaweed-Color"] = "blue"
+	}
+	var q []string
+	if u.Ttl != "" {
+		q = append(q, "ttl="+u.Ttl)
+	}
+	if u.Ts {
+		q = append(q, fmt.Sprintf("ts=%d", 1600000000+variant))
+	}
+	url := e.c.Servers[0].HttpUrl(cluster.Fid(e.lay.Vid, key, cookie))
+	if len(q) > 0 {
+		url += "?" + strings.Join(q, "&")
+	}
+	_, err := operation.UploadData(url, u.Name, false, sent, gzipped, u.Mime, pairs, "")
+	return err
+}
+
+// runRetry executes a two-step history: an upload whose replication fails, then
+// the identical upload again; the SECOND answer is judged.
+func runRetry(r *mc.Run, e *env, k kase, recheck bool) (classes map[string]bool) {
+	classes = map[string]bool{}
+	key := e.nextKey
+	e.nextKey++
+	modes := k.Faults[0]
+	overwrite := strings.HasSuffix(k.Retry, "overwrite")
+	client := strings.HasPrefix(k.Retry, "client-")
+	variant := 1
+	if overwrite {
+		if resp := e.doUpload(key, k.Upload, 1); resp.Err != nil || resp.Status/100 != 2 {
+			mc.Fatal("c40: preparing v1 for %+v: %v %d %s", k, resp.Err, resp.Status, trunc(resp.Body))
+		}
+		if f, _, _ := e.compare(key); f != "" && f != "mime" {
+			mc.Fatal("c40: v1 not on every replica (%s) for %+v", f, k)
+		}
+		variant = 2
+	}
+	ms := append([]string{}, modes...)
+	sort.Strings(ms)
+	fm := strings.Join(ms, "+")
+	firstStatus, status := "-", "err"
+	ok := false
+	if client {
+		for pi, p := range e.proxies {
+			p.set(clientModes[modes[pi]])
+		}
+		err := e.doClientUpload(key, k.Upload, variant)
+		ok = err == nil
+		if ok {
+			status = "ok"
+		}
+		for _, p := range e.proxies {
+			p.set(nil)
+		}
+	} else {
+		var downed []*proxy
+		for pi, p := range e.proxies {
+			p.set(uploadModes[modes[pi]])
+			if modes[pi] == "down" {
+				p.down()
+				downed = append(downed, p)
+			}
+		}
+		first := e.doUpload(key, k.Upload, variant)
+		for _, p := range downed {
+			p.up()
+		}
+		for _, p := range e.proxies {
+			p.set(nil)
+		}
+		firstStatus = "err"
+		if first.Err == nil {
+			firstStatus = fmt.Sprint(first.Status)
+		}
+		second := e.doUpload(key, k.Upload, variant) // the identical request, every replica healthy
+		ok = second.Err == nil && second.Status/100 == 2
+		if second.Err == nil {
+			status = fmt.Sprint(second.Status)
+		}
+	}
+	field, detail, _ := e.compare(key)
+	outcome := "consistent"
+	if field != "" {
+		outcome = "differ:" + field
+	}
+	if !recheck {
+		r.Case(fmt.Sprintf("%s|retry:%s|%s|first=%s|second=%s|%s", k.Layout, k.Retry, fm, firstStatus, status, outcome))
+		r.Add(fmt.Sprintf("retry:%s %s %s -> first=%s second=%s %s", k.Layout, k.Retry, fm, firstStatus, status, outcome), 1)
+	}
+	if !ok || field == "" {
+		return // a reported failure is not judged
+	}
+	// one family per differing field: the repeat of an upload whose replication failed,
+	// with or without a client-supplied timestamp (which decides last-modified)
+	feat := "client-ts=none"
+	if k.Upload.Ts {
+		feat = "client-ts=given"
+	}
+	if field == "mime" {
+		feat += ":sent-mime=" + mimeClass(k.Upload.Mime)
+	}
+	class := fmt.Sprintf("replicas-differ:%s:repeat-of-failed-upload:%s", field, feat)
+	classes[class] = true
+	if !recheck && e.kept[class] < 3 {
+		e.kept[class]++
+		r.Violate(class, fmt.Sprintf("layout %s, %s history for %+v: the first attempt under faults %v answered %s, the identical repeat answered %s (success) but replicas differ in %s: %s",
+			k.Layout, k.Retry, k.Upload, modes, firstStatus, status, field, detail), k, func() bool {
+			return runRetry(r, e, k, true)[class]
+		})
+	} else if !recheck {
+		r.Add("violating_cases_not_kept", 1)
+	}
+	return
+}
+
 func (e *env) doDelete(key uint64) vhutil.Resp {
 	return vhutil.Do("DELETE", e.c.Servers[0].HttpUrl(cluster.Fid(e.lay.Vid, key, cookie)), nil, nil, "")
 }
@@ -338,6 +458,13 @@ type kase struct {
 	Layout string     `json:"layout"`
 	Upload upload     `json:"upload"`
 	Faults [][]string `json:"faults,omitempty"` // per op (upload, overwrite, delete) x per replica: mode name
+	// Retry selects a two-step history instead of upload/overwrite/delete: an
+	// upload that fails under Faults[0], then the identical upload repeated.
+	// "fresh" | "overwrite" (v1 stored everywhere first, v2 fails, v2 repeated) with
+	// a plain HTTP client and healthy replicas on the repeat; "client-fresh" |
+	// "client-overwrite": one operation.UploadData call whose own retry loop is the
+	// repeat (Faults[0] are scripts that fail the first forwarded requests).
+	Retry string `json:"retry,omitempty"`
 }
 
 var uploadModes = map[string][]string{
@@ -349,6 +476,15 @@ var uploadModes = map[string][]string{
 	"applied500-500": {"applied-500", "500", "500"},
 	"down":           nil,
 }
+
+// scripts for the client-retry histories: the primary forwards up to 3 times per
+// client attempt, so 3 failures = the client's first attempt fails, 6 = the first two
+var clientModes = map[string][]string{
+	"ok":       nil,
+	"500x3-ok": {"500", "500", "500"},
+	"500x6-ok": {"500", "500", "500", "500", "500", "500"},
+}
+
 var uploadModeNames = []string{"ok", "500-ok", "500-500-ok", "500x3", "applied500-ok", "applied500-500", "down"}
 var deleteModeNames = []string{"ok", "500", "applied500", "down"}
 var deleteModes = map[string][]string{"ok": nil, "500": {"500"}, "applied500": {"applied-500"}, "down": nil}
@@ -375,6 +511,9 @@ func extClass(n string) string {
 
 // runCase executes upload, overwrite, delete (with the fault modes, if any) and judges each reported success.
 func runCase(r *mc.Run, e *env, k kase, recheck bool) (classes map[string]bool) {
+	if k.Retry != "" {
+		return runRetry(r, e, k, recheck)
+	}
 	classes = map[string]bool{}
 	key := e.nextKey
 	e.nextKey++
@@ -586,6 +725,33 @@ func enumerate(r *mc.Run, f func(idx int, k kase)) {
 			})
 		}
 	}
+	// (C) two-step histories: an upload whose replication fails, then the identical upload again
+	retryShapes := faultShapes[:2] // storable mime, non-empty bodies
+	for _, lay := range layouts {
+		nrep := lay.Servers - 1
+		for _, u := range retryShapes {
+			for _, variant := range []string{"fresh", "overwrite"} {
+				modeVectors([]string{"ok", "500x3", "down"}, nrep, func(v []string) {
+					if strings.Join(v, "") == strings.Repeat("ok", nrep) {
+						return // nothing fails
+					}
+					f(idx, kase{Layout: lay.Name, Upload: u, Faults: [][]string{v}, Retry: variant})
+					idx++
+				})
+				cm := []string{"ok", "500x3-ok"}
+				if !r.Quick() {
+					cm = append(cm, "500x6-ok")
+				}
+				modeVectors(cm, nrep, func(v []string) {
+					if strings.Join(v, "") == strings.Repeat("ok", nrep) {
+						return
+					}
+					f(idx, kase{Layout: lay.Name, Upload: u, Faults: [][]string{v}, Retry: "client-" + variant})
+					idx++
+				})
+			}
+		}
+	}
 }
 
 func run(r *mc.Run) {
@@ -631,7 +797,10 @@ func run(r *mc.Run) {
 				envs[k.Layout] = e
 			}
 			runCase(r, e, k, false)
-			if len(k.Faults) > 0 {
+			if k.Retry != "" {
+				r.Sample("retry-case", k)
+				r.Add("retry_cases", 1)
+			} else if len(k.Faults) > 0 {
 				r.Sample("fault-case", k)
 				r.Add("fault_cases", 1)
 			} else {
